@@ -212,6 +212,20 @@ def run_scenario(sc: dict):
                           rebalance_timeout_ms=REBALANCE_MS)
                 if sc.get("static"):
                     kw["group_instance_id"] = "static-1"
+                if sc.get("bad_assignor"):
+                    # an application-supplied assignor that fails once the group has a second member: the member under
+                    # test is the group LEADER, its JoinGroup succeeded, no SyncGroup follows -- the group sits in
+                    # CompletingRebalance (where a broker answers OffsetCommit with REBALANCE_IN_PROGRESS) and the error
+                    # is parked for the application, which calls stop()
+                    from aiokafka.coordinator.assignors.roundrobin import RoundRobinPartitionAssignor
+
+                    class FailingAssignor(RoundRobinPartitionAssignor):
+                        @classmethod
+                        def assign(cls, cluster, members):
+                            if len(members) >= 2:
+                                raise RuntimeError("assignor failed")
+                            return super().assign(cluster, members)
+                    kw["partition_assignment_strategy"] = [FailingAssignor]
             elif sc.get("assign_group"):
                 kw.update(group_id=GROUP)
             obj = AIOKafkaConsumer(**kw)
